@@ -228,7 +228,7 @@ prop('C18', units=['fr', 'ut'], level='proof',
 
 prop('C19', units=['ih'], level='proof',
      bounded=[dict(test='c19_hints', covers='the hover, label and placement clauses of C19 (hover::exec / extract_doc_comments, inlay_hint_class, inlay_hint_record_field: rowan navigation and format!, outside the contracts)',
-                   bound='a fixed corpus written from the property statement: 4 workspaces; hover at 5 use sites (class with two contiguous // lines below a blank-line-separated comment, overridden field, template argument, undocumented class, def) compared with the expected signature and doc text and with the go-to-definition target; hover on a class of an included file; the full hint list (7 hints: positional arguments of a parent-class reference spread over two lines and of a class value, two field overrides) compared by position, label and kind; a class named as a type inside an argument gets no hint of its own')],
+                   bound='a fixed corpus written from the property statement: 5 workspaces; hover at 9 use sites (class with two contiguous // lines below a blank-line-separated comment, overridden field, template argument, undocumented class, def, defvar, defset used as a value, multiclass, inherited field) compared with the expected signature and doc text and with the go-to-definition target; hover on a class of an included file; the full hint list (7 hints: positional arguments of a parent-class reference spread over two lines and of a class value, two field overrides) compared by position, label and kind; a class named as a type inside an argument gets no hint of its own')],
      explanation=('Partial: the range clause only. Verus proves on the real text of ide::handlers::inlay_hint::exec that every hint it returns has its position inside the requested range: '
                   'the filter closure of the final hints.retain(..) is moved into a function and proved to answer start <= position <= end, and Vec::retain is assumed to keep exactly the '
                   'elements for which it answers true. What the gathering loop produces (rowan navigation, format!) is not constrained. NOT proved: the hover half (signature and doc comments), that '
